@@ -75,7 +75,7 @@ def gen_case(rng, tier):
 
 
 def gen(rng, tier):
-    for _ in range(300 if tier == "quick" else 20000):
+    for _ in range(260 if tier == "quick" else 20000):
         yield gen_case(rng, tier)
 
 
@@ -132,11 +132,12 @@ LEVEL_TEXT = ("Theorems in coq/theories/Properties/C29.v over a small-step model
               "scripts, any number of calls and tasks and an arbitrary scheduler: in EVERY reachable state the events of the inline calls "
               "are a prefix of their sequential execution in arrival order (C29_order, C29_order_complete); no reply is sent twice and, in "
               "the class of bursts that respect one lock order (which contains every burst of method handlers that await / register / "
-              "remove / emit, C29_methods_safe), some step is enabled until every call has exactly one reply (C29_all_reply). The model is "
+              "remove / emit, C29_methods_safe), some step is enabled until every call has exactly one reply (C29_all_reply), and every run "
+              "is finite with an explicit bound (C29_terminates). The model is "
               "tied to the code by replaying the handler event log of real bursts through the model (every verdict is re-run through "
               "Model.runs, C29_explains_ok_sound) and the order / reply oracle is evaluated on the implementation's own log.")
 LEVEL_NOTE = ("Protocol-level proof: the lock semantics, FIFO delivery to the dispatch task and executor fairness are assumed contracts. "
-              "Liveness is stated as 'a step is enabled until all replies are there'; with finite scripts every run is finite, a bound on "
-              "its length is not proved. Property accesses to a spawn-disabled interface go through org.freedesktop.DBus.Properties, "
+              "Liveness is stated as 'a step is enabled until all replies are there' (C29_all_reply) plus 'no run has more than "
+              "run_bound steps' (C29_terminates); that enabled steps are eventually taken is the executor's contract. Property accesses to a spawn-disabled interface go through org.freedesktop.DBus.Properties, "
               "whose methods are spawned: they are not ordered (and the property text only speaks of method calls). Trusted: Coq kernel, "
               "the model, harness/hdisp and its event log.")
